@@ -41,6 +41,7 @@ Init ==
         xmap   |-> {},                            \* << id, pid >> marked as advertised
         reach  |-> {},                            \* pending: [key |-> <<id,pid>>, p, c (content)]
         unrch  |-> {},                            \* pending: [key |-> <<id,pid>>, p, pid]
+        buf    |-> {},                            \* initial dump of a new session, not yet flushed: [p, pid, c]
         mirror |-> {} ]                           \* neighbour's view: [p, pid, c]
 
 Content(st, x) == [src |-> x.src, cls |-> x.cls, ll |-> x.src \in st.llgr]
@@ -48,7 +49,7 @@ Content(st, x) == [src |-> x.src, cls |-> x.cls, ll |-> x.src \in st.llgr]
 Ops ==      [k : {"announce"}, src : Src, p : Prefix, cls : Cls]
        \cup [k : {"withdraw"}, src : Src, p : Prefix]
        \cup [k : {"peerdown", "markllgr"}, src : Src]
-       \cup [k : {"deliver", "flush", "refresh"}]
+       \cup [k : {"deliver", "flush", "refresh", "newsession"}]
 
 Has(st, p, src) == \E x \in st.rib[p] : x.src = src
 
@@ -57,7 +58,7 @@ Enabled(st, op) ==
     [] op.k = "peerdown" -> \E p \in Prefix : Has(st, p, op.src)
     [] op.k = "markllgr" -> op.src \notin st.llgr /\ (\E p \in Prefix : Has(st, p, op.src))
     [] op.k = "deliver"  -> st.chan # <<>>
-    [] op.k = "flush"    -> st.reach # {} \/ st.unrch # {}
+    [] op.k = "flush"    -> st.reach # {} \/ st.unrch # {} \/ st.buf # {}
     [] OTHER -> TRUE
 
 ---------------------------------------------------------------------------
@@ -192,12 +193,14 @@ Walk(st, ps) ==
            q == IF "DumpTruncatesBeforeFilter" \in Dev THEN Take(Ranked(st, p), SendMax) ELSE Ranked(st, p)
        IN Walk(IF st.rib[p] = {} THEN st ELSE Process(st, Note(p, st.did[p], TRUE, TRUE, 0, q)), ps \ {p})
 
+\* order on the wire: the buffered initial dump first, then withdrawals, then announcements
 DoFlush(st) ==
   LET gone == {[p |-> u.p, pid |-> u.pid] : u \in st.unrch}
-      m1   == {m \in st.mirror : [p |-> m.p, pid |-> m.pid] \notin gone}
+      m0   == {m \in st.mirror : \A b \in st.buf : ~(b.p = m.p /\ b.pid = m.pid)} \cup st.buf
+      m1   == {m \in m0 : [p |-> m.p, pid |-> m.pid] \notin gone}
       new  == {[p |-> r.p, pid |-> r.pid, c |-> r.c] : r \in st.reach}
       m2   == {m \in m1 : \A r \in new : ~(r.p = m.p /\ r.pid = m.pid)} \cup new
-  IN [st EXCEPT !.mirror = m2, !.reach = {}, !.unrch = {}]
+  IN [st EXCEPT !.mirror = m2, !.reach = {}, !.unrch = {}, !.buf = {}]
 
 Step(st, op) ==
   CASE op.k = "announce" -> DoAnnounce(st, op)
@@ -207,6 +210,11 @@ Step(st, op) ==
     [] op.k = "deliver"  -> Process([st EXCEPT !.chan = Tail(@)], Head(st.chan))
     [] op.k = "flush"    -> DoFlush(st)
     [] op.k = "refresh"  -> Walk(st, Prefix)
+    [] op.k = "newsession" ->
+         \* the neighbour reconnects: it has forgotten everything, the session starts from an empty export map
+         \* with the dump of the current RIB buffered (registered under the RIB lock: no notification is missed)
+         LET z == Walk([st EXCEPT !.chan = <<>>, !.xmap = {}, !.reach = {}, !.unrch = {}, !.buf = {}, !.mirror = {}], Prefix)
+         IN [z EXCEPT !.buf = {[p |-> r.p, pid |-> r.pid, c |-> r.c] : r \in z.reach}, !.reach = {}]
 
 Next == \E op \in Ops : Enabled(s, op) /\ s' = Step(s, op)
 Spec == Init /\ [][Next]_s
@@ -225,7 +233,7 @@ FreshDump(st) ==
     IN {[p |-> p, pid |-> IF SendMax = 1 THEN 0 ELSE top[i].lid, c |-> Content(st, top[i])] : i \in 1..Len(top)}
     : p \in Prefix }
 
-Quiescent(st) == st.chan = <<>> /\ st.reach = {} /\ st.unrch = {}
+Quiescent(st) == st.chan = <<>> /\ st.reach = {} /\ st.unrch = {} /\ st.buf = {}
 
 \* C01
 Converges == Quiescent(s) => s.mirror = FreshDump(s)
